@@ -60,6 +60,11 @@ def programs(tier: str):
             for kind in ("value", "exc", "ignore1"):
                 for tc in (None, 1):
                     yield {"d": d, "kind": kind, "tc": tc, "batch": 1, "inner": inner}
+    # the caller is cancelled by somebody the function woke up right before it finished: the
+    # request reaches the caller before it has resumed, so it ends cancelled
+    for d in (1,):
+        for kind in ("value", "exc"):
+            yield {"d": d, "kind": kind, "tc": None, "batch": 1, "cancel_at_return": True}
     # two overlapping calls through one wrapped function, each with its own deadline
     for da in (1, 3):
         for db in (1, 3):
@@ -142,6 +147,8 @@ def execute(program, ch: Chooser) -> Result:  # noqa: C901, PLR0912, PLR0915
                         await asyncio.sleep(1.0 if kind == "ignore1" else 3.0)
                         return "late"
                     raise
+                if program.get("cancel_at_return"):
+                    w.loop.call_soon(task.cancel)  # runs before the caller is resumed
                 if kind == "exc":
                     raise err
                 if kind == "base":
@@ -203,6 +210,9 @@ def execute(program, ch: Chooser) -> Result:  # noqa: C901, PLR0912, PLR0915
             events.append((float(tc), "cancel"))
         first = min(t for t, _ in events)
         allowed = []
+        if program.get("cancel_at_return"):
+            events = [(float(d), "cancel")]
+            first = float(d)
         for t, what in events:
             if t == first:
                 if what == "own":
